@@ -124,6 +124,8 @@ func init() {
 func flatStreams(id string) []func(*Ctx) StreamResult {
 	ss := []func(*Ctx) StreamResult{flattenStream.Run}
 	switch id {
+	case "C01", "C04":
+		ss = append(ss, replaceStream.Run)
 	case "C03":
 		ss = append(ss, uniqifyStream.Run)
 	case "C06":
@@ -131,7 +133,7 @@ func flatStreams(id string) []func(*Ctx) StreamResult {
 	case "C07":
 		ss = append(ss, sortStream.Run)
 	case "C09":
-		ss = append(ss, removeUnusedStream.Run)
+		ss = append(ss, flattenPlusStream.Run, removeUnusedStream.Run)
 	}
 	return ss
 }
